@@ -103,6 +103,10 @@ func Base(d string) gm.Schema {
 		s.Tables[2].Col("pfree2").Charset, s.Tables[2].Col("pfree2").Collation = "latin1", "latin1_swedish_ci"   // other charset than the table
 		s.Tables[2].Col("title").Charset, s.Tables[2].Col("title").Collation = "utf8mb4", "utf8mb4_0900_ai_ci"   // same as the table
 		s.Tables[0].Indexes = append(s.Tables[0].Indexes, gm.Index{Name: "idx_users_bio", Parts: []gm.Part{{Col: "bio", Prefix: 10}}})
+		// the shape a MariaDB inspection yields for a JSON column: a check named after the column with a json_valid() expression.
+		// The differ hides the drop of such a check while the column stays (the database owns it) and reports it when the column goes too.
+		s.Tables[1].Cols = append(s.Tables[1].Cols, gm.Col{Name: "meta", Type: "json", Null: true})
+		s.Tables[1].Checks = append(s.Tables[1].Checks, gm.Check{Name: "meta", Expr: "json_valid(`meta`)"})
 		s.Tables[0].Engine = "MyISAM"
 		s.Tables[4].AutoIncStart = 100
 		s.Tables[2].Cols[6].OnUpdate = ""
@@ -517,6 +521,11 @@ func AllSites(d string, s gm.Schema) []Site {
 		}
 		for _, ck := range t.Checks {
 			key := T + ".chk:" + ck.Name + ck.Expr
+			if d == "mysql" && strings.HasPrefix(ck.Expr, "json_valid") && t.Col(ck.Name) != nil {
+				// database-generated check: only its removal together with the column is a reportable change
+				add(EditRef{Kind: "drop-checked-column", Table: T, Obj: ck.Name, Arg: ck.Expr}, key, T+".col:"+ck.Name)
+				continue
+			}
 			add(EditRef{Kind: "drop-check", Table: T, Obj: ck.Name, Arg: ck.Expr}, key)
 			if ck.Name != "" {
 				add(EditRef{Kind: "modify-check", Table: T, Obj: ck.Name, Arg: strings.Replace(ck.Expr, "> 0", "> 1", 1) + " OR 1 = 1"}, key)
